@@ -401,6 +401,65 @@ Fixpoint multi_entries (n : nat) (es : list (string * held * path)) : list (stri
 Definition atomicity_violations (I : instance) : list (string * nat) :=
   multi_entries 0 (i_tbl I) ++ flat_map (fun e => multi_from (fst e) 0 (snd e)) (i_methods I).
 
+(* ---- the shape the reduction theorem needs ----------------------------------------------------
+   Beyond [ok], the reduction from micro-steps to atomic sections (section Data below, [pok]) needs:
+   mutex 0 is the outer lock -- any other mutex is taken only while mutex 0 is held exclusively, and
+   mutex 0 is released last; a hand-off happens holding exactly mutex 0 shared, and the goroutine that
+   receives the section neither starts goroutines nor hands off again; a goroutine started inside a
+   section is started under the exclusive outer lock and touches nothing (only blocking sites); a
+   goroutine started outside any section is inert, or only starts inert ones (escaping closures). *)
+Definition inert_code (c : list act) : bool :=
+  forallb (fun a => match a with Blk _ => true | _ => false end) c.
+Definition seg_all (f : list act -> bool) (s : seg) : bool :=
+  match s with Straight l => f l | Iter alts => forallb f alts end.
+Definition inert_path (p : path) : bool := forallb (seg_all inert_code) p.
+Definition nospawn_code (c : list act) : bool :=
+  forallb (fun a => match a with Spawn _ | Handoff _ => false | _ => true end) c.
+Definition nospawn_path (p : path) : bool := forallb (seg_all nospawn_code) p.
+Definition tpath (tbl : list (held * path)) (i : nat) : path := snd (nth i tbl ([], [])).
+Definition spawn_inert_code (tbl : list (held * path)) (c : list act) : bool :=
+  forallb (fun a => match a with Blk _ => true | Spawn j => inert_path (tpath tbl j) | _ => false end) c.
+Definition hnext (h : held) (a : act) : held :=
+  match a with
+  | Acq m md => (m, md) :: h
+  | Rel m _ => hdel h m
+  | Handoff _ => []
+  | _ => h
+  end.
+Definition shape_act (tbl : list (held * path)) (h : held) (a : act) : bool :=
+  match a with
+  | Acq m _ => Nat.eqb m 0 || holdsW h 0
+  | Rel m _ => negb (Nat.eqb m 0) || Nat.eqb (List.length h) 1
+  | Handoff i => held_eqb h [(0, MR)] && nospawn_path (tpath tbl i)
+  | Spawn i => if is_nil h then forallb (seg_all (spawn_inert_code tbl)) (tpath tbl i)
+               else holdsW h 0 && inert_path (tpath tbl i)
+  | _ => true
+  end.
+Fixpoint shape_code (tbl : list (held * path)) (h : held) (c : list act) : bool :=
+  match c with
+  | [] => true
+  | a :: k => shape_act tbl h a && shape_code tbl (hnext h a) k
+  end.
+Definition hafter (h : held) (c : list act) : held := fold_left hnext c h.
+Fixpoint shape_path (tbl : list (held * path)) (h : held) (p : path) : bool :=
+  match p with
+  | [] => true
+  | Straight l :: p' => shape_code tbl h l && shape_path tbl (hafter h l) p'
+  | Iter alts :: p' => forallb (shape_code tbl h) alts && shape_path tbl h p'
+  end.
+Fixpoint shape_from (tbl : list (held * path)) (name : string) (n : nat) (ps : list path) : list (string * nat) :=
+  match ps with
+  | [] => []
+  | p :: ps' => (if shape_path tbl [] p then [] else [(name, n)]) ++ shape_from tbl name (S n) ps'
+  end.
+Fixpoint shape_entries (tbl : list (held * path)) (n : nat) (es : list (string * held * path)) : list (string * nat) :=
+  match es with
+  | [] => []
+  | e :: es' => (if shape_path tbl (snd (fst e)) (snd e) then [] else [(fst (fst e), n)]) ++ shape_entries tbl (S n) es'
+  end.
+Definition reduction_shape_violations (I : instance) : list (string * nat) :=
+  shape_entries (i_table I) 0 (i_tbl I) ++ flat_map (fun e => shape_from (i_table I) (fst e) 0 (snd e)) (i_methods I).
+
 (* the codes one call of a method of the property can run *)
 Definition call_code (I : instance) (cd : list act) : Prop :=
   exists name ps p, In (name, ps) (i_methods I) /\ In p ps /\ expands p cd.
@@ -530,4 +589,19 @@ Inductive asteps : acfg -> acfg -> Prop :=
 | asteps_trans a b c : asteps a b -> astep b c -> asteps a c.
 
 Definition ainit (s : store) (ps : list prog) : acfg := {| ast := s; ats := ps |}.
+
+(* the act traces of a resumption that starts no goroutine (what the translator extracts) *)
+Inductive ptrace : prog -> list act -> Prop :=
+| pt_ret r : ptrace (PRet r) []
+| pt_acq m md k t : ptrace k t -> ptrace (PAcq m md k) (Acq m md :: t)
+| pt_rel m md k t : ptrace k t -> ptrace (PRel m md k) (Rel m md :: t)
+| pt_rd f k v t : ptrace (k v) t -> ptrace (PRd f k) (Rd f :: t)
+| pt_wr f v k t : ptrace k t -> ptrace (PWr f v k) (Wr f :: t).
+Fixpoint nospawn (p : prog) : Prop :=
+  match p with
+  | PRet _ => True
+  | PAcq _ _ k | PRel _ _ k | PWr _ _ k => nospawn k
+  | PRd _ k => forall v, nospawn (k v)
+  | PSpawn _ _ | PHandoff _ _ => False
+  end.
 End Data.
